@@ -79,6 +79,7 @@ func refusalChecks(c *Ctx, rule string, fn *ssa.Function, what string, match fun
 }
 
 func isNColumnsResult(v ssa.Value) bool {
+	v = capturedLoad(v)
 	call, ok := v.(*ssa.Call)
 	if !ok {
 		return false
@@ -285,15 +286,9 @@ func runC05(c *Ctx) {
 
 	var emitRow *ssa.Function
 	isEmit := func(in ssa.Instruction) bool {
-		f := staticCallee(in)
-		if f == nil || funcPkgPath(f) != pkgPath("csv") || f == fn {
-			return false
-		}
-		for _, p := range f.Params {
-			if isIOWriter(p.Type()) {
-				emitRow = f
-				return true
-			}
+		if f := emitCallee(in, pkgPath("csv"), fn); f != nil {
+			emitRow = f
+			return true
 		}
 		return false
 	}
@@ -451,7 +446,11 @@ func c05Record(c *Ctx, emitRow *ssa.Function, t *taintCtx) {
 			}
 			ok, why = c05FieldShape(p, v, loopIdx, cells, t)
 		}
-		r.Check("R05.4", name, "the field is the quoted cell where the row has one and \"\" (quoted empty) otherwise, preceded by the separator except in column 0", fw.Pos(), ok, why)
+		if !ok && (why == "no separator logic recognised" || why == "field is not (separator +) value" || strings.HasPrefix(why, "shape:")) {
+			r.Note("shape-unrecognised R05.4: the value written per column is not assembled as (separator +) (quoted cell | quoted empty) in the emitting function itself (" + why + "); the per-field shape is not evaluated (taint, fidelity and the record structure still are)")
+		} else {
+			r.Check("R05.4", name, "the field is the quoted cell where the row has one and \"\" (quoted empty) otherwise, preceded by the separator except in column 0", fw.Pos(), ok, why)
+		}
 	}
 	// terminator
 	{
@@ -630,15 +629,9 @@ func runC08(c *Ctx) {
 
 	var emitRow *ssa.Function
 	isEmit := func(in ssa.Instruction) bool {
-		f := staticCallee(in)
-		if f == nil || funcPkgPath(f) != pkgPath("markdown") || f == fn {
-			return false
-		}
-		for _, p := range f.Params {
-			if isIOWriter(p.Type()) {
-				emitRow = f
-				return true
-			}
+		if f := emitCallee(in, pkgPath("markdown"), fn); f != nil {
+			emitRow = f
+			return true
 		}
 		return false
 	}
@@ -1302,4 +1295,41 @@ func carriedInto(v ssa.Value, h *ssa.BasicBlock, seen map[ssa.Value]bool) bool {
 		}
 	}
 	return false
+}
+
+// emitCallee: the call at `in` (made by fn) emits one row/line: its callee is a function of the package that takes
+// the destination writer, or a local closure / thin helper holding the writer whose body makes exactly one such
+// call. Returns the function that does the emitting (nil if `in` is no such call).
+func emitCallee(in ssa.Instruction, pkg string, fn *ssa.Function) *ssa.Function {
+	f := staticCallee(in)
+	if f == nil || funcPkgPath(f) != pkg || f == fn || f.Blocks == nil {
+		return nil
+	}
+	for _, p := range f.Params {
+		if isIOWriter(p.Type()) {
+			return f
+		}
+	}
+	if len(writerValues(f)) == 0 {
+		return nil
+	}
+	var inner *ssa.Function
+	n := 0
+	eachInstr(f, func(x ssa.Instruction) {
+		g := staticCallee(x)
+		if g == nil || funcPkgPath(g) != pkg || g == f || g == fn {
+			return
+		}
+		for _, p := range g.Params {
+			if isIOWriter(p.Type()) {
+				inner = g
+				n++
+				return
+			}
+		}
+	})
+	if n == 1 {
+		return inner
+	}
+	return nil
 }
